@@ -412,20 +412,45 @@ pub fn last_var(env: &Env, t: &Ty) -> Option<String> {
 /// Definitions that are records reaching themselves through record fields only: they
 /// have no (finite) values. Greatest fixed point of "has a field that is such a record".
 pub fn infinite_records(env: &Env) -> Vec<String> {
-    let mut s: Vec<String> =
-        env.0.iter().filter(|(_, t)| matches!(t, Ty::Record(_))).map(|(k, _)| k.clone()).collect();
-    loop {
-        let cur = s.clone();
-        s.retain(|name| match env.0.get(name) {
-            Some(Ty::Record(fs)) => {
-                fs.iter().any(|(_, t)| last_var(env, t).map_or(false, |x| cur.contains(&x)))
+    use std::collections::{HashMap, HashSet};
+    // records and, per record, the records its fields lead to (through aliases)
+    let records: HashSet<&String> = env.0.iter().filter(|(_, t)| matches!(t, Ty::Record(_))).map(|(k, _)| k).collect();
+    let mut deps: HashMap<&String, Vec<String>> = HashMap::new();
+    let mut rev: HashMap<String, Vec<&String>> = HashMap::new();
+    for name in &records {
+        if let Some(Ty::Record(fs)) = env.0.get(*name) {
+            let mut d: Vec<String> = fs.iter().filter_map(|(_, t)| last_var(env, t)).filter(|x| records.contains(x)).collect();
+            d.sort();
+            d.dedup();
+            for x in &d {
+                rev.entry(x.clone()).or_default().push(*name);
             }
-            _ => false,
-        });
-        if s.len() == cur.len() {
-            return s;
+            deps.insert(*name, d);
         }
     }
+    // least fixed point of "finite": every record it leads to is finite (worklist, linear in the edges);
+    // what remains is the greatest fixed point of "has a field that is such a record"
+    let mut pending: HashMap<&String, usize> = deps.iter().map(|(k, d)| (*k, d.len())).collect();
+    let mut work: Vec<&String> = pending.iter().filter(|(_, n)| **n == 0).map(|(k, _)| *k).collect();
+    let mut finite: HashSet<&String> = HashSet::new();
+    while let Some(r) = work.pop() {
+        if !finite.insert(r) {
+            continue;
+        }
+        if let Some(users) = rev.get(r) {
+            for u in users {
+                if let Some(n) = pending.get_mut(*u) {
+                    *n -= 1;
+                    if *n == 0 {
+                        work.push(*u);
+                    }
+                }
+            }
+        }
+    }
+    let mut out: Vec<String> = records.into_iter().filter(|r| !finite.contains(*r)).cloned().collect();
+    out.sort();
+    out
 }
 
 pub struct Decoded {
@@ -443,7 +468,7 @@ struct ValDec<'a> {
     rd: Rd<'a>,
     nodes: u64,
     lim: &'a Limits,
-    infinite: Vec<String>,
+    infinite: std::collections::HashSet<String>,
 }
 
 impl<'a> ValDec<'a> {
@@ -570,7 +595,7 @@ impl<'a> ValDec<'a> {
 pub fn decode(b: &[u8], lim: &Limits) -> Result<Decoded, WireErr> {
     let (header, hl) = parse_header(b, lim)?;
     let (env, tys) = header_types(&header)?;
-    let infinite = infinite_records(&env);
+    let infinite: std::collections::HashSet<String> = infinite_records(&env).into_iter().collect();
     let mut d = ValDec { env: &env, rd: Rd { b, pos: hl }, nodes: 0, lim, infinite };
     let mut vals = Vec::new();
     for t in &tys {
